@@ -243,7 +243,13 @@ def run_case(case):
         N = base['ops'][xi]['data']['shape'][0]
         win = {k_: base['write'][k_] for k_ in ('from_idx', 'to_idx') if k_ in base['write']}
         base['write'] = dict({'source': 'inline', 'output_chunk_size': 2 ** 16}, **win)
-        ref = run(base)
+        if win:
+            # the reference is what the window MEANS: the same arrays cut to the window beforehand, written without one
+            # (a value outside the window that the cast cannot take has nothing to do with the rows selected)
+            ref = run(presliced(base, win.get('from_idx') or 0, win.get('to_idx')))
+            bump('float-cast-window-vs-presliced')
+        else:
+            ref = run(base)
         bump('float-cast-out-of-range')
         bump('float-cast-reference-' + ('written' if ref.data is not None else 'refused'))
         for src in ['inline', 'dict', 'struct', 'hdf5']:
